@@ -9,7 +9,7 @@
 //!   tree  = ( node* );  node = ( N0 ns name ( attr* ) ( node* ) ) | ( N1 text ) | ( N2 )
 //!   attr  = ( prefix-enc ns local value ), in the BTreeSet's iteration order; prefix-enc is
 //!           empty for `None` and 0x01 ++ prefix for `Some(prefix)` (order-preserving).
-//! outcome = ok ( cleaned-tree reparsed-output-tree flags ) | panic
+//! outcome = ok ( cleaned-tree reparsed-output-tree ) | panic
 //!   cleaned-tree: `Html::parse(html)`, `sanitize_with(cfg)`, dumped through the public DOM API;
 //!   reparsed-output-tree: `Html::parse(html.to_string())` of the cleaned document — what an HTML
 //!   parser sees; html5ever is not modelled, so the Coq side echoes it and evaluates the spec on it.
@@ -313,9 +313,7 @@ pub fn run_case(cfg: &Cfg, html: &str) -> Sx {
         let cleaned = tree_sx(&doc);
         let out = doc.to_string();
         let re = Html::parse(&out);
-        // flags: serialising the reparsed output reproduces the output string
-        let stable = re.to_string() == out;
-        Sx::ok(Sx::L(vec![cleaned, tree_sx(&re), Sx::L(vec![Sx::b(stable)])]))
+        Sx::ok(Sx::L(vec![cleaned, tree_sx(&re)]))
     })
 }
 
